@@ -655,6 +655,7 @@ def run(rep, tier):
     rep.rule('R07i', 'the minimum of a frontier / heap is only read when it is non-empty', floor=1)
     rep.rule('R07h', 'sizes computed with unsigned subtraction do not wrap for the empty graph', floor=0)
     rep.rule('R07g', 'no mutable function-local static state in library functions', floor=1)
+    rep.rule('R04c', 'rank slices of the MPI variants are well-formed ranges for every total and communicator size (a range whose start lies beyond its end / beyond the sequence is an allocation failure or an out-of-bounds copy; shared with C04)', floor=0)
     rep.rule('R07k', 'numeric_limits<T>::infinity() only for floating-point T (it is 0 for the integral weight types the templates are instantiated with)', floor=0)
     rep.rule('R07l', 'no integer division by a container size that is zero for a valid input', floor=0)
     rep.rule('R07f', 'no plain + on a distance that may be the infinity marker (signed overflow for integral weights)', floor=0)
@@ -687,6 +688,12 @@ def run(rep, tier):
         nclasses, nsites = max(nclasses, c), max(nsites, s)
         nderef += r07d(rep, prog)
         r07e(rep, prog)
+        from . import c04
+        sub4 = type(rep)(rep.prop, rep.tier)
+        c04.check_slices(sub4, prog)
+        for i in sub4.instances.values():
+            if i.rule == 'R04c':
+                rep.add(i.rule, i.site, i.function, i.what, i.status, i.detail, key=i.key)
         for fn in prog.fns(c10.READER):
             sub = type(rep)(rep.prop, rep.tier)
             c10.check_reader(sub, prog, fn)
